@@ -131,8 +131,8 @@ theorem front_specCtx (cf : Conf) (r : Req) (c : Ctx) (h : front cf r = .ok c) :
   cases htr : r.tr <;> simp only [htr] at h ⊢
   · cases h; rfl
   · cases h; rfl
-  · rw [frontTLS_ok cf r _ c h]
-  · rw [frontTLS_ok cf r _ c h]
+  · rw [frontTLS_ok cf r _ c h]; rfl
+  · rw [frontTLS_ok cf r _ c h]; rfl
   · obtain ⟨u, _, hu, hc, _⟩ := frontHTTP_ok cf r c h
     rw [parseRequestURI_spec _ _ u hu, hc]; rfl
   · obtain ⟨u, _, hu, hc, _⟩ := frontHTTP_ok cf r c h
